@@ -51,7 +51,7 @@ func (s *ShardResult) Bail() bool {
 			n++
 		}
 	}
-	if n >= 4 {
+	if n >= 3 {
 		if len(s.Notes) == 0 || !strings.HasPrefix(s.Notes[len(s.Notes)-1], "bailed out") {
 			s.Notes = append(s.Notes, fmt.Sprintf("bailed out after %d watchdog timeouts", n))
 		}
